@@ -153,7 +153,7 @@ def make_case(rng):
     order_index = {}
     for i, comp in enumerate(comps):
         for _try in range(30):
-            r = M.render_fragment(rng, g, sorted(comp), desc, opts={'explicit_single': 0.0, 'leading': rng.random() < 0.3, 'bracket_p': bracket_p})
+            r = M.render_fragment(rng, g, sorted(comp), desc, opts={'explicit_single': 0.0, 'leading': rng.random() < 0.3, 'bracket_p': bracket_p, 'desc_in_parens': rng.choice([0.0, 0.3]), 'desc_after_branch': rng.choice([0.0, 0.5])})
             if not cyclic or not (marked_pair_is_ring_closure(r, slash_pairs) or later_anchor_after_its_substituent(r, stereo)):
                 break
         else:
